@@ -223,9 +223,11 @@ func vxODInvariant(mg *Movegen, sc *vxODScript, mode GenMode, pv, t Move, delive
 }
 
 // case: (generation mode 1 = non-quiet, 2 = quiet, 3 = all) x (stage of the rest state before the call).
-// Six cases (all moves from an early stage, where one call may run through all seven scripts) need
-// several minutes per query: they form the thorough-only harness.
-func vxODDeep(k int) bool { return k == 16 || k == 22 || k == 24 || k == 26 || k == 27 }
+// Eight cases (a call from an early stage may run through all remaining scripts) need one to several
+// minutes per query: they form the thorough-only harness.
+func vxODDeep(k int) bool {
+	return k == 11 || k == 16 || k == 18 || k == 22 || k == 24 || k == 26 || k == 27 || k == 29
+}
 
 // (mode all, rest stage od2) = case 25: its invariant query stayed undecided after 900 s in every solver
 // of the portfolio: not claimed (recorded in MANIFEST); the neighbouring stages od1 and od3 are.
@@ -247,10 +249,10 @@ func vxODNth(i int, deep bool) int {
 	return 0
 }
 
-func VN_C08_on_demand_one_call() int  { return 27 }
+func VN_C08_on_demand_one_call() int  { return 24 }
 func VH_C08_on_demand_one_call(i int) { vxODOneCall(vxODNth(i, false)) }
 
-func VN_C08_on_demand_one_call_deep_T() int  { return 5 }
+func VN_C08_on_demand_one_call_deep_T() int  { return 8 }
 func VH_C08_on_demand_one_call_deep_T(i int) { vxODOneCall(vxODNth(i, true)) }
 
 func vxODOneCall(k int) {
